@@ -128,10 +128,115 @@ func fromFlat(e []float64, dims []int, tracked bool) T {
 	return t
 }
 
-// mk draws a tensor of the given shape with nondet elements name_k.
+// mk draws a tensor of the given shape with nondet elements name_k.  The work-item parameter "via"
+// (default 0) selects the provenance of the object: the properties speak about tensors, not about
+// tensors fresh out of TensorOf, so the same assertions are also decided for operands that were used
+// before and for operands that other operations produced from used tensors.
 func mk(name string, dims []int, tracked bool) (T, []float64) {
 	e := elems(name, numel(dims))
-	return fromFlat(e, dims, tracked), e
+	v := vrt.ParamOr("via", 0)
+	if v == 0 {
+		return fromFlat(e, dims, tracked), e
+	}
+	return derived(v, name, e, dims, tracked), e
+}
+
+// touch uses a tensor the way earlier code may have: reductions, shape modifiers, arithmetic with
+// itself.  Results are discarded; errors are the operation's business, not the harness's.
+func touch(x T) {
+	_, _, _ = x.Sum(), x.Std(), x.Avg()
+	_, _ = x.Transpose()
+	_, _ = x.Add(x)
+	_, _ = x.MatMul(x)
+	d := vrt.Dims(x)
+	_, _ = x.Broadcast(append([]int{2}, d...))
+	_, _ = x.Slice(nil)
+	_, _ = x.Equals(x)
+	if len(d) > 0 {
+		_, _ = x.SumAlong(0)
+		_, _ = x.Flatten(0)
+	}
+}
+
+// usedTogether is touch for a pair of operands.
+func usedTogether(a, b T) {
+	_, _ = a.MatMul(b)
+	_, _ = b.MatMul(a)
+	_, _ = a.Add(b)
+	_, _ = b.Div(a)
+	_, _ = a.Equals(b)
+	_, _ = a.ElMax(b)
+}
+
+// maybeUsedTogether: operands of the provenance variants (via != 0) have a common past as well.
+func maybeUsedTogether(a, b T) {
+	if vrt.ParamOr("via", 0) != 0 {
+		usedTogether(a, b)
+	}
+}
+
+func fullIndex(dims []int) []tensor.Range {
+	idx := make([]tensor.Range, len(dims))
+	for i := range idx {
+		idx[i] = tensor.Range{From: 0, To: dims[i]}
+	}
+	return idx
+}
+
+// derived builds the tensor holding e through the provenance v:
+// 1 a used tensor of other elements, fully overwritten by Patch   2 Slice(nil) of a used tensor
+// 3 Reshape of a used rank-1 tensor   4 a used tensor transposed twice   5 Concat of two used parts
+// 6 Scale(1) of a used tensor   7 the used tensor itself
+func derived(v int, name string, e []float64, dims []int, tracked bool) T {
+	var y T
+	var err error
+	switch {
+	case v == 1 && len(dims) > 0:
+		base := fromFlat(elems(name+"o", len(e)), dims, false)
+		touch(base)
+		u := fromFlat(e, dims, false)
+		touch(u)
+		y, err = base.Patch(fullIndex(dims), u)
+	case v == 2:
+		x := fromFlat(e, dims, false)
+		touch(x)
+		y, err = x.Slice(nil)
+	case v == 3:
+		x := fromFlat(e, []int{len(e)}, false)
+		touch(x)
+		y, err = x.Reshape(dims)
+	case v == 4 && len(dims) >= 2:
+		x := fromFlat(e, dims, false)
+		touch(x)
+		y, err = x.Transpose()
+		if err == nil {
+			touch(y)
+			y, err = y.Transpose()
+		}
+	case v == 5 && len(dims) > 0 && dims[0] >= 2:
+		row := len(e) / dims[0]
+		top := append([]int{1}, dims[1:]...)
+		rest := append([]int{dims[0] - 1}, dims[1:]...)
+		a := fromFlat(e[:row], top, false)
+		b := fromFlat(e[row:], rest, false)
+		touch(a)
+		touch(b)
+		y, err = tensor.Concat([]T{a, b}, 0)
+	case v == 6:
+		x := fromFlat(e, dims, false)
+		touch(x)
+		y = x.Scale(1)
+	default:
+		x := fromFlat(e, dims, false)
+		touch(x)
+		y = x
+	}
+	if err != nil || y == nil {
+		vrt.Assert("harness: derived tensor construction", false)
+		vrt.Assume(false)
+	}
+	y.ResetGradContext(tracked)
+	return y
 }
 
 func sameDims(a, b []int) bool {
